@@ -212,6 +212,23 @@ def _rename_strings(node, old, new):
                 _rename_strings(v, old, new)
 
 
+MULTI_SITE_MAX = 4
+
+
+def _sigshape(inputs, output):
+    sh = lambda t: re.sub(r"'\w+ ?", '', re.sub(r'[A-Za-z_][\w]*::', '', str(t)))
+    return (tuple(sh(t) for t in inputs), sh(output))
+
+
+def _known_sigs():
+    if not hasattr(_known_sigs, 'v'):
+        try:
+            _known_sigs.v = json.load(open(os.path.join(os.path.dirname(os.path.abspath(__file__)), '..', 'spec', 'known_fns.json'))).get('sigs', {})
+        except Exception:
+            _known_sigs.v = {}
+    return _known_sigs.v
+
+
 def inline_new_helpers(d):
     """a private function that the pinned tree does not have (spec/known_fns.json) and that is called from exactly one place is a
     helper extracted by a refactoring: its body is spliced back into the caller (locals and blocks renumbered, parameters
@@ -222,13 +239,14 @@ def inline_new_helpers(d):
         return []
     done = []
     skip = set()
-    for _round in range(8):
+    for _round in range(48):
         byid = {f['id']: f for f in d['fns']}
         new_fns = [f for f in d['fns'] if f['kind'] in ('Fn', 'AssocFn') and (not f.get('public') or 'std::convert::From<' in f['id']) and not f.get('derived') and f['id'] not in known
                    and f['id'] not in skip]
         if not new_fns:
             break
         newids = {f['id'] for f in new_fns}
+        gone_shapes = {_sigshape(*sg) for kid, sg in _known_sigs().items() if kid not in byid}
         sites = defaultdict(list)
         refs = defaultdict(int)
         for f in d['fns']:
@@ -245,15 +263,25 @@ def inline_new_helpers(d):
                             refs[c[key]] += 1
         cand = None
         for f in new_fns:
-            if len(sites.get(f['id'], [])) != 1 or refs.get(f['id'], 0):
+            ns_ = len(sites.get(f['id'], []))
+            if not (1 <= ns_ <= MULTI_SITE_MAX) or refs.get(f['id'], 0):
                 continue
+            if ns_ > 1 and re.match(r'^(backends|parser)::', f['id']):
+                continue        # the template and grammar engines read helper calls themselves
+            if ns_ > 1 and (len(f['blocks']) > 80 or any(g['id'].startswith(f['id'] + '::{closure#') for g in d['fns'])):
+                continue        # copied per call site: small, closure-free helpers only
+            if ns_ > 1 and _sigshape(f.get('inputs') or [], f.get('output') or '') in gone_shapes:
+                continue        # a pinned function renamed or moved, not an extracted helper
             caller_id, cb = sites[f['id']][0]
             base_caller = re.sub(r'(::\{closure#\d+\})+$', '', caller_id)
             if base_caller == f['id'] or byid[caller_id].get('derived'):
                 continue
             # helpers that call other new single-site helpers are inlined after those (leaves first)
-            if any(ci == f['id'] or ci.startswith(f['id'] + '::{closure#') for tg, ss in sites.items() if tg != f['id'] and len(ss) == 1 and not refs.get(tg, 0) for ci, _ in ss):
+            if any(ci == f['id'] or ci.startswith(f['id'] + '::{closure#') for tg, ss in sites.items() if tg != f['id'] and 1 <= len(ss) <= MULTI_SITE_MAX and not refs.get(tg, 0)
+                   and tg not in skip for ci, _ in ss):
                 continue
+            if any(re.sub(r'(::\{closure#\d+\})+$', '', ci) == f['id'] for ci, _ in sites[f['id']]):
+                continue        # recursive
             if any(b['term']['k'] not in ('Call', 'SwitchInt', 'Goto', 'Drop', 'Assert', 'Return', 'Unreachable', 'UnwindResume') for b in f['blocks']):
                 continue
             cand = (f, byid[caller_id], cb)
@@ -453,7 +481,8 @@ def inline_new_helpers(d):
             if i_ not in seen_ and not b_.get('cleanup'):
                 b_['stmts'] = []
                 b_['term'] = {'k': 'Unreachable', 'span': b_['term']['span']}
-        d['fns'] = [g for g in d['fns'] if g['id'] != H['id']]
+        if len(sites[H['id']]) == 1:
+            d['fns'] = [g for g in d['fns'] if g['id'] != H['id']]      # that was the last call site
         done.append((H['id'], C['id'], bool(thread)))
     return done
 
